@@ -159,6 +159,51 @@ func checkAccepted(t byte, b []byte, kind string) {
 		tr = "trailing"
 	}
 	out.Class("accepted/" + tn + "/" + kind + "/" + tr)
+	// a copy obtained through Clone is a message of its own: changing it through the setters must
+	// leave the decoded original (its fields and the bytes it re-encodes to) alone, and the clone
+	// must encode to what the reference encoder gives for its new fields
+	if pm, ok := m.(*message.PublishMessage); ok {
+		cloneIndependence(pm, in[:n], detail)
+	}
+}
+
+func cloneIndependence(pm *message.PublishMessage, wire []byte, detail map[string]interface{}) {
+	defer func() {
+		if r := recover(); r != nil {
+			out.Violation("c03:clone-panic", fmt.Sprint(r), detail)
+		}
+	}()
+	c, err := pm.Clone()
+	if err != nil {
+		out.Violation("c03:clone-error", err.Error(), detail)
+		return
+	}
+	before := libFields(pm)
+	// every in-place setter, with values that differ from the original's
+	nq := (pm.QoS() + 1) % 3
+	c.SetQoS(nq)
+	if nq > 0 {
+		c.SetPacketID(pm.PacketID() ^ 0x5aa5 | 1)
+	}
+	c.SetDup(!pm.Dup())
+	c.SetRetain(!pm.Retain())
+	want := libFields(c)
+	if d := diffPackets(before, libFields(pm)); d != "" {
+		out.Violation("c03:clone-aliases-original", "changing a Clone() through its setters changed the fields of the decoded original: "+d, detail)
+		return
+	}
+	b2, ln, n2, err, pan := libEncode(pm)
+	if pan != nil || err != nil || ln != len(wire) || n2 != len(wire) || !bytes.Equal(b2[:n2], wire) {
+		out.Violation("c03:clone-aliases-original", fmt.Sprintf("after changing a Clone() of it, the decoded original no longer re-encodes to its packet: Len()=%d wrote %d err=%v bytes %s", ln, n2, err, hex(b2[:max(n2, 0)])), detail)
+		return
+	}
+	cb, cl, cn, err, pan := libEncode(c)
+	ref := rc.Encode(want)
+	if pan != nil || err != nil || cl != cn || !bytes.Equal(cb[:cn], ref) {
+		out.Violation("c03:clone-encode", fmt.Sprintf("clone with QoS %d, dup %v, retain %v: Len()=%d wrote %d err=%v, bytes %s, reference %s", c.QoS(), c.Dup(), c.Retain(), cl, cn, err, hex(cb[:max(cn, 0)]), hex(ref)), detail)
+		return
+	}
+	out.Count("c03.clone.checked", 1)
 }
 
 func TestC03(t *testing.T) {
